@@ -99,7 +99,7 @@ class DictIterMixin:
                 if kind == "store":
                     nv = cur + self.dsum_term(ds, sym.coerce(newval, ty.v)) - z3.If(z3.Select(dom, key_t), oldterm, I(0))
                 elif kind == "delete":  # the key is present on this path
-                    k = z3.FreshConst(sym.sort_of(ty.k), "k")
+                    k = z3.FreshConst(sym.dict_ksort(ty), "k")
                     allpos = _forall([k], z3.Implies(z3.Select(dom, k), self.dsum_term(ds, V(ty.v, z3.Select(val, k))) >= 0))
                     self.ctx.assume(z3.Implies(allpos, cur >= oldterm))  # a finite sum of non-negative terms dominates each
                     nv = cur - oldterm
@@ -164,7 +164,7 @@ class DictIterMixin:
     def enum_dict(self, view: DictView, env, tag, sorted_=False):
         d = view.d
         ty = d.ty
-        ks = sym.sort_of(ty.k)
+        ks = sym.dict_ksort(ty)  # (C19) bytes keys: K / pos range over bkey ids, the key VALUES are unkey(K[i]) (see below)
         dom, val = sym.dict_dom(d), sym.dict_val(d)
         n = self.ctx.fresh_const(z3.IntSort(), tag + "_n")
         K = self.ctx.fresh_const(z3.ArraySort(z3.IntSort(), ks), tag + "_K")
@@ -180,7 +180,20 @@ class DictIterMixin:
             if ty.k != TInt:
                 raise Unsupported("sorted() of non-int keys")
             A(_forall([i, j], z3.Implies(z3.And(0 <= i, i < j, j < n), z3.Select(K, i) < z3.Select(K, j)), patterns=[z3.MultiPattern(z3.Select(K, i), z3.Select(K, j))]))
-        keys = sym.list_mk(ty.k, n, K)
+        if ty.k == sym.TBytes:
+            # (C19) dict[bytes, V]: K enumerates the ids of the keys; the i-th key VALUE is some byte string with that id
+            # (every id in the domain is the id of a byte string - the dict's keys ARE byte strings), so looking the
+            # enumerated key up again (bkey of it) gives K[i] back.  `_keys` is the list of key values, `_kid` the ids.
+            self.ctx.axioms.setdefault("bkey", sym.bkey_axiom())
+            A(_forall([i], z3.Implies(z3.And(0 <= i, i < n), sym.bkey(sym.unkey(z3.Select(K, i))) == z3.Select(K, i)), patterns=[z3.Select(K, i)]))
+            kval = lambda ix: sym.unkey(z3.Select(K, ix))  # noqa: E731
+            keys = sym.list_mk(ty.k, n, z3.Lambda([i], kval(i)))
+            env.locals[tag + "_kid"] = V(TArr(TInt, TInt), K)
+            pos_ty = TArr(TInt, TInt)
+        else:
+            kval = lambda ix: z3.Select(K, ix)  # noqa: E731
+            keys = sym.list_mk(ty.k, n, K)
+            pos_ty = TArr(ty.k, TInt)
         if view.kind == "keys":
             lst = keys
         elif view.kind == "values":
@@ -188,9 +201,9 @@ class DictIterMixin:
         else:
             tt = TTuple([ty.k, ty.v])
             mk = sym.sort_of(tt).constructor(0)
-            lst = sym.list_mk(tt, n, z3.Lambda([i], mk(z3.Select(K, i), z3.Select(val, z3.Select(K, i)))))
+            lst = sym.list_mk(tt, n, z3.Lambda([i], mk(kval(i), z3.Select(val, z3.Select(K, i)))))
         env.locals[tag + "_keys"] = keys
-        env.locals[tag + "_pos"] = V(TArr(ty.k, TInt), pos)
+        env.locals[tag + "_pos"] = V(pos_ty, pos)
         dss, ref_t = self._dsum_for(d)
         eps = {}
         for ds in dss:
